@@ -21,8 +21,8 @@
    0 / 1 / 2+ bytes: C03_line_length_observable is the witness (Redact() output differs between
    "\na" and "\nbc": the engine glues a one-byte line to the previous one).  That is a
    length side channel of one bit per line, not content; it is stated, not hidden. *)
-From Errv Require Import Base.Str Redact.Markers Redact.Buffer Model.Err Model.Sem Model.Report Model.Details Model.Codec
-     Proofs.RedactFacts Proofs.RedactWf Proofs.EngineWf Proofs.EngineNI Proofs.DetailsNI.
+From Errv Require Import Base.Str Redact.Markers Redact.Buffer Model.Err Model.Sem Model.Report Model.Details Model.Codec Model.Build
+     Proofs.RedactFacts Proofs.RedactWf Proofs.EngineWf Proofs.EngineNI Proofs.DetailsNI Proofs.ApiWf Proofs.ApiNI.
 
 (* ---- non-interference for ARBITRARY BYTES (Proofs/RedactWf.v): what Redact()
    leaves of a printf call does not depend on the content of an unsafe argument,
@@ -125,6 +125,50 @@ Print Assumptions C03_wire_http_code_witness.
 Example C03_details_example :
   ueq'' ex_e1 ex_e2.
 Proof. exact ex_ueq''. Qed.
+
+(* ---- from the INPUT of the public API (Proofs/ApiNI.v): two constructor expressions related by [req] -- the same
+   constructors and verbs in the same places, everything that enters through a safe channel equal (format literals,
+   Safe() arguments, messages of New / Wrap / WithMessage, keys, domains, links, codes, errno and sentinel numbers ...),
+   every string that enters through an UNSAFE channel (foreign messages, %s / %v arguments, hints, details, paths,
+   addresses, unsafe tag values, gRPC messages ...) arbitrary with the same line shape -- build errors with the same
+   PII-free outputs.  The domain of [req] is the decidable fragment [ni_frag] (no transfers, no stdlib Join, no
+   full-message user wrapper, error arguments last in message formats); each exclusion and each extra clause of [req]
+   is witnessed below.  The %v / %s statement needs NO condition on the bytes at all. ---- *)
+Theorem C03_api_short : forall env r1 r2 s e1 e2 s1 s2, req r1 r2 ->
+  build env r1 s = (Some e1, s1) -> build env r2 s = (Some e2, s2) ->
+  redact (fmt_red_short e1) = redact (fmt_red_short e2).
+Proof. exact api_ni_short. Qed.
+Print Assumptions C03_api_short.
+
+Theorem C03_api_outputs : forall env r1 r2 s e1 e2 s1 s2, req r1 r2 ->
+  strs_ok r1 = true -> strs_ok r2 = true -> stacks_ok env ->
+  build env r1 s = (Some e1, s1) -> build env r2 s = (Some e2, s2) ->
+  redact (fmt_red_verbose e1) = redact (fmt_red_verbose e2) /\
+  get_all_safe_details e1 = get_all_safe_details e2 /\
+  build_report e1 = build_report e2 /\
+  enc_safe (encode e1) = enc_safe (encode e2).
+Proof.
+  intros env r1 r2 s e1 e2 s1 s2 H T1 T2 K E1 E2.
+  split; [exact (api_ni_verbose env r1 r2 s e1 e2 s1 s2 H T1 T2 K E1 E2)|].
+  split; [exact (api_ni_details env r1 r2 s e1 e2 s1 s2 H T1 T2 K E1 E2)|].
+  split; [exact (api_ni_report env r1 r2 s e1 e2 s1 s2 H T1 T2 K E1 E2)|exact (api_ni_encode env r1 r2 s e1 e2 s1 s2 H T1 T2 K E1 E2)].
+Qed.
+Print Assumptions C03_api_outputs.
+
+(* related expressions are nil together, and the relation is reflexive exactly on the fragment *)
+Theorem C03_api_relation : forall r, ni_frag r = true -> req r r.
+Proof. exact req_refl. Qed.
+Print Assumptions C03_api_relation.
+
+Theorem C03_api_fragment : forall r1 r2, req r1 r2 -> ni_frag r1 = true /\ ni_frag r2 = true.
+Proof. exact req_frag. Qed.
+Print Assumptions C03_api_fragment.
+
+(* two concrete related expressions (Wrapf with an unsafe %s, a %d and an error argument, over a barrier with
+   domain, tags, hint and a secondary error) meet every hypothesis; their unredacted renderings differ *)
+Example C03_api_example :
+  req ni_r1 ni_r2 /\ strs_ok ni_r1 = true /\ strs_ok ni_r2 = true /\ stacks_ok ex_env.
+Proof. split; [exact ni_ex_req|exact ni_ex_hyps]. Qed.
 
 (* an evaluated instance: hint, prefix, secondary error, opaque leaf with different unsafe contents *)
 Example C03_engine_example :
